@@ -476,3 +476,37 @@ def rule_scoped_keys(ctx):
 
 
 RULES.append(("C11.l", "scoped thread-local keys install, hand out and restore the right pointer: the model id / simulation context a failure is attributed to is the one installed for the running task", rule_scoped_keys))
+
+
+def rule_timeout_plumbing(ctx):
+    """'an overrunning step yields Timeout': the time limit the executor enforces is the one the user configured - the builder's
+    value reaches Simulation::new (C18.e), set_timeout stores its argument, every run of the executor from the simulation gets the
+    `timeout` field, and the executor front end forwards it unchanged to the executor that is in use."""
+    P = ctx.prog
+    from . import c18
+    c18.rule_e(ctx)
+    n = 0
+    for b in P.all_bodies():
+        if "::tests" in b.name:
+            continue
+        for s in b.calls(r"^executor::Executor::run$"):
+            if not b.name.startswith("simulation::"):
+                continue
+            n += 1
+            o = b.origins(s.args()[1], s)
+            ok = bool(o) and all(origin_proj_names(x) == (("arg", 1), [("f", "timeout")]) for x in o)
+            ctx.ob("timeout|run-gets-configured-limit|%s" % b.name, ok, "the executor is run with the simulation's `timeout` field", [s])
+    ctx.ob("floor|timeout-run-sites", n >= 1, "expected >= 1 executor run site in the simulation front end (found %d)" % n)
+    fe = ctx.body("executor::Executor::run")
+    if fe is not None:
+        fw = list(fe.calls(r"^executor::(st|mt)_executor::Executor::run$"))
+        ok = len(fw) == 2 and all(fe.origins(s.args()[1], s) == frozenset([("arg", 2)]) for s in fw)
+        ctx.ob("timeout|front-end-forwards-limit", ok, "Executor::run forwards its timeout argument unchanged to the single- and the multi-threaded executor", fw)
+    st = ctx.body("simulation::Simulation::set_timeout")
+    if st is not None:
+        ws = [a for a in st.assigns() if a.node["p"]["l"] == 1 and any(isinstance(x, list) and x[0] == "f" and x[2] == "timeout" for x in a.node["p"]["p"])]
+        ok = len(ws) == 1 and ws[0].node["r"]["r"] == "use" and st.origins(ws[0].node["r"]["o"], ws[0]) == frozenset([("arg", 2)]) and not st.conditions(ws[0])
+        ctx.ob("timeout|setter-stores-argument", ok, "Simulation::set_timeout stores its argument into the `timeout` field, unconditionally", ws or [st.loc()])
+
+
+RULES.append(("C11.m", "the time limit enforced on a step is the configured one (builder -> Simulation -> executor)", rule_timeout_plumbing))
